@@ -24,7 +24,7 @@ def run(ctx):
     design(ctx)
     rnd = random.Random(ctx.seed)
     n = 6000 if thorough else 500
-    progs = [T.gen_program(rnd, i, cls='A', feats=('send', 'tempo', 'spawn', 'raise', 'cond', 'quant', 'stop')) for i in range(n)]
+    progs = [T.gen_program(rnd, i, cls='A', feats=('send', 'tempo', 'spawn', 'raise', 'cond', 'quant', 'stop', 'yr', 'func')) for i in range(n)]
     nrt_progs = progs + [T.gen_program(rnd, n + i, cls='A', nrt_only=True) for i in range(n // 4)]
     check(ctx, nrt_progs, progs, MINE, sig, 'C05')
     ctx.cov['rule'] = ('%d seeded random routine programs (1-6 routines, nested/cross-clock play, yields in {0,1/8..2} beats, tempo '
